@@ -22,6 +22,7 @@ def tasks(tier):
           W('direct_1d.n3_G4', 'c05_direct_1d', n=3, G=4), W('direct_1d.n2_G3_het', 'c05_direct_1d', n=2, G=3, het='xx'),
           W('direct_2d.2_1_G3', 'c05_direct_2d', nx=2, ny=1, G=3)]
     ts += [W('dispatch.%dD' % P, 'c05_from_phi_dispatch', P=P) for P in (1, 2, 3, 4)]
+    ts += [W('admix_props.%dD' % K, 'c05_admix_props', K=K) for K in (2, 3, 4)]
     ts += [W('analytic_1d.n3_G4', 'c05_analytic_1d', n=3, G=4), W('cached_dbeta.n2_G3', 'c05_cached_dbeta', n=2, G=3)]
     ts += [W('linalg.%s_G%d' % ('_'.join(map(str, ns)), G), 'c05_linalg', ns=list(ns), G=G)
            for ns, G in (((1, 2), 3), ((1, 2, 1), 2), ((1, 1, 1, 2), 2), ((1, 1, 2, 1, 1), 2))]
